@@ -174,14 +174,15 @@ func c08Main(r *run.Runner) {
 		"whenever parser.Parse succeeds the returned tree is printed back to tokens by an independent printer (exported fields only) and compared with parser.Scan(source) minus the three permitted absences; " +
 		"non-trivial = Parse succeeded on a source with at least 2 tokens (the comparison was reached); distinct by construction"
 	r.Assume = []string{"tree printer c08print reads exported fields only; keyword synonyms are accepted as alternatives"}
-	b1 := tokenSweeps(r, 4, 6, c08One)
-	b2 := corruptionSweep(r, c08One)
 	scaleThorough = r.Thorough()
 	scale := scalePrograms()
 	r.Sweep("scale", int64(len(scale)), func(w *run.Worker, item int64) {
 		pr := gen.Print(scale[item])
 		c08One(w, pr.Layout(pr.Uniform(" ")).Source)
 	})
+	// the large enumerations last: the families above must not be starved by the tier deadline
+	b1 := tokenSweeps(r, 4, 6, c08One)
+	b2 := corruptionSweep(r, c08One)
 	r.Extra["bounds"] = map[string]any{"token_sequences": b1, "corruptions": b2, "scale_programs": len(scale)}
 	r.Sample("T | where f ( a [ = ] )")
 	r.Sample("T | summarize a , by a")
